@@ -9,7 +9,8 @@ Three kinds of cases, all judged by the Lean model AsynqModel.Lib.Debug (mode `d
            (computed with Python's `in`, the only question the code asks about a line).
 * glue   : chains of 1-8 awaiting tasks with raise / re-raise / catch positions are run on the real scheduler; the
            traceback that reaches the caller is read frame by frame, format_asynq_stack() is called inside bodies and
-           inside orphan tasks run after their creators finished, format_error() is applied to what arrives.
+           inside orphan tasks run after their creators finished, format_error() is applied to what arrives.  The
+           exceptions of a chain derive from Exception or (case field "exc": "base") from BaseException only.
 * repr   : every asynq object kind is driven into the lifecycle states of the state table and str/repr/dump are called;
            objects that hold a user value (scoped values, their override contexts, generator.Value, futures, items,
            tasks) additionally hold every value SHAPE (tuples of 0-3 elements, namedtuple, dict, %-string, ...) and
@@ -29,14 +30,16 @@ import types
 PID = "C18"
 LEVEL = "proof"
 LEAN_MODULES = ["AsynqModel.Theorems.C18", "AsynqModel.Theorems.C18Exact"]
-# headline statements first; the last block holds by construction of the model (see MANIFEST level_note)
-THEOREMS = [
+# HEADLINE: statements with content about the model (what the property text says).  BY_CONSTRUCTION: true because of the
+# way the model / the observer is written (constant tables, `x == x`); kept for the record and audited like the others,
+# but NOT part of the claim - for the str / repr / dump / format_error clause the content is the correspondence run.
+HEADLINE = [
     # filter_traceback
     "AsynqModel.Debug.C18_filter_sound",
-    "AsynqModel.Debug.C18_filter_spec_holds",
-    "AsynqModel.Debug.C18_filter_observer_sound",
     "AsynqModel.Debug.C18_filter_id",
     "AsynqModel.Debug.C18_filter_first_match",
+    "AsynqModel.Debug.C18_filter_observer_exact",
+    "AsynqModel.Debug.C18_filter_observer_sound",
     "AsynqModel.Debug.C18_filter_tablesOK_needed",
     # gluing
     "AsynqModel.Debug.C18_glue",
@@ -54,18 +57,23 @@ THEOREMS = [
     "AsynqModel.Debug.C18_glue_observer_exact",
     "AsynqModel.Debug.C18_glue_spec_holds_partial",
     "AsynqModel.Debug.C18_stackSafe_exact_small",
-    # str / repr / dump / format_error
-    "AsynqModel.Debug.C18_repr_holders_total",
-    "AsynqModel.Debug.C18_bare_percent_fails",
-    "AsynqModel.Debug.C18_format_error_total",
-    "AsynqModel.Debug.C18_format_error_non_exception",
-    # by construction of the model (content = the correspondence run)
+    "AsynqModel.Debug.C18_known_signature_exact",
+]
+BY_CONSTRUCTION = [
+    "AsynqModel.Debug.C18_filter_spec_holds",
+    # str / repr / dump / format_error: `render` is a table; its content is the correspondence run
     "AsynqModel.Debug.C18_repr_total_partial",
     "AsynqModel.Debug.C18_repr_raises_iff",
     "AsynqModel.Debug.C18_repr_spec_holds_partial",
     "AsynqModel.Debug.C18_repr_flags_needed",
+    "AsynqModel.Debug.C18_repr_holders_total",
+    "AsynqModel.Debug.C18_bare_percent_fails",
+    "AsynqModel.Debug.C18_format_error_total",
+    "AsynqModel.Debug.C18_format_error_non_exception",
+    "AsynqModel.Debug.C18_format_error_garbage_traceback_attr",
     "AsynqModel.Debug.C18_extract_tb_hides_only_library",
 ]
+THEOREMS = HEADLINE + BY_CONSTRUCTION
 BUILDS = {"quick": ["py"], "thorough": ["py", "cy"]}
 EXHAUSTIVE = {"quick": False, "thorough": False}
 CASE_TIMEOUT = 30
@@ -75,10 +83,11 @@ RULE = ("filter: tracebacks over the pattern tables extracted from the current d
         "depth 1 and (reduced alphabet) 2 (3 thorough) plus random chains of depth 1-8 over await style x handler "
         "(none, bare re-raise, raise e, raise new, swallow) x own raise (helper depth 0-3) x orphan x bottom (nothing, "
         "ErrorFuture, or a context hook - pause() on suspension / resume() on continuation of the innermost task blocked "
-        "on a batch item - raising through 0-3 helpers, every depth 1-4 (thorough 1-8)); repr: a fixed list of scenarios "
+        "on a batch item - raising through 0-3 helpers, every depth 1-4 (thorough 1-8)) x exception class (Exception; a "
+        "quarter of the random chains and the plain deep chains also BaseException-only); repr: a fixed list of scenarios "
         "per object kind that reaches every cell of the model's state table which public API calls can reach (incl. "
         "`almost finished` tasks seen from a DUMP_QUEUED_RESULTS write, futures asked for their repr from inside their own "
-        "repr, format_error of non-exceptions with a traceback), each cell with str/repr/dump; scoped values, their "
+        "repr, format_error of non-exceptions with a traceback and of exceptions whose `_traceback` is garbage), each cell with str/repr/dump; scoped values, their "
         "override contexts, generator.Value, futures, batch items and task results additionally hold every value shape "
         "((), 1-, 2-, 3-tuple, nested tuple, namedtuple, dict, %-string, None, list) and must show that value. non-trivial = filter "
         "case with a complete and a partial run / chain where an exception crosses >= 2 task levels or an orphan "
@@ -94,14 +103,35 @@ TRUSTED = [
 ASSUMPTIONS = [
     "filter: no entry of REPLACEMENTS has an empty pattern list (hypothesis `tablesOK` of C18_filter_sound; with one the "
     "real function does not terminate - the harness then does not call it and the observer answers empty-pattern-list)",
-    "format_error: the first argument is None or an exception instance (the statement says `any exception`; what the "
-    "function does with other objects is modelled and compared but not judged: `inStatement`)",
-    "stack of a task run after its creator finished: judged for every chain; the THEOREM C18_glue_refines_partial "
-    "covers the chains with `stackSafe` (no orphan at or below a level that let the exception of a synchronously "
-    "called child pass) - the others are the open finding glue/stack-foreign-entry-sync",
-    "chains: one awaited child per level (shared failing tasks awaited by two parents are out of the statement)",
+    "filter: the observer demands the model's output (C18_filter_observer_exact) - a rendering in which every complete "
+    "run met by the left-to-right scan is collapsed and the first table entry wins; `only collapses complete runs` alone "
+    "(Renders) would also admit a filter that collapses nothing",
+    "format_error: the first argument is None or an exception instance, and its private attribute `_traceback` (where "
+    "asynq / qcore keep sys.exc_info()[2]) is absent, None or a traceback object (the statement says `any exception with "
+    "or without traceback`; other objects, and an exception whose `_traceback` holds anything else - format_error then "
+    "raises AttributeError, C18_format_error_garbage_traceback_attr - are modelled, driven and compared but not judged: "
+    "`inStatement`)",
+    "gluing: the exceptions of a chain do not derive from GeneratorExit (exercised: classes deriving from Exception and "
+    "from BaseException only; the model has no exception class).  An exception deriving from GeneratorExit that leaves a "
+    "task's generator is read by asynq as the END of the task (async_task.py `_continue`: `except GeneratorExit` -> "
+    "AsyncTaskResult = the value of `result()`, AsyncTaskCancelledError = failure, anything else -> `_queue_exit(None)`): "
+    "the awaiter receives None and no exception (reproduced; it is Python's own meaning of GeneratorExit for generators "
+    "and the mechanism `result()` is built on, hence treated as outside `an exception that crosses d levels`); "
+    "StopIteration raised in a body becomes RuntimeError (PEP 479) before asynq sees it",
+    "stack of a task run after its creator finished: judged for every chain.  With the repaired "
+    "`_continue_on_generator` (the walk to the frame stored in `_frame` stops before the first asynq frame) the harness "
+    "extracts the frame rule `own` and C18_glue_refines_partial covers EVERY chain (its hypothesis is `rule = .own` or "
+    "`stackSafe`); the `deepest` rule of the code before that fix, C18_stack_orphan_counterexample and the name "
+    "glue/stack-foreign-entry-sync (C18_known_signature_exact) stay as the record of the defect and re-appear only if "
+    "the unconditional walk comes back",
+    "chains: one awaited child per level (shared failing tasks awaited by two parents are out of the statement); no "
+    "await inside a handler / finally, no `raise .. from`, no tuple / list awaits, no ErrorFuture holding an exception "
+    "that was already raised elsewhere (probed by hand: glue correctly; not modelled)",
     "consecutive traceback entries of the same frame object count as one frame (`raise e` inside a handler)",
     "values held by futures / scoped values have a working repr of their own and scoped values do not hold themselves",
+    "repr: the abstract state strings of the scenarios (which words a text must contain) are hand-written regression "
+    "expectations of today's wording, compared as CORR; the property (SPEC) only says `did not raise` (and, for "
+    "holders, `shows the held value`)",
     "single thread",
 ]
 
@@ -366,7 +396,10 @@ def gen_glue_random(rng, depth=None):
         # the raiser is a hook of a context entered by the innermost level
         bottom = ["hook", rng.choice(["pause", "resume"]), rng.choice([0, 0, 1, 2, 3])]
         levels[-1].update(handler=["pass"], own=None)
-    return {"sub": "glue", "bottom": bottom, "levels": levels}
+    case = {"sub": "glue", "bottom": bottom, "levels": levels}
+    if rng.random() < 0.25:
+        case["exc"] = "base"      # every exception of the chain derives from BaseException only
+    return case
 
 
 def gen_glue_cases(tier, rng):
@@ -390,6 +423,8 @@ def gen_glue_cases(tier, rng):
                 levels = [_level(orphan=1, pre=i % 3) for i in range(r + 1)]
                 levels[r]["own"] = h
                 cases.append({"sub": "glue", "bottom": 0, "levels": levels})
+                if h == 0 and d <= 5:
+                    cases.append({"sub": "glue", "bottom": 0, "levels": [dict(x) for x in levels], "exc": "base"})
     # the raiser is a context hook (pause on suspension / resume on continuation of a task blocked on a batch item):
     # every depth 1-4 (thorough 1-8) x hook x helper depth, plain chains; depth 2 with every kind of level above the owner
     for d in range(1, 5 if tier == "quick" else 9):
@@ -448,21 +483,29 @@ def shrink(case):
                 yield {"sub": "filter", "tbs": [tb[:i] + tb[i + 1:]]}
     elif sub == "glue":
         levels = case["levels"]
+
+        def mk(bottom, ls, exc=case.get("exc")):
+            c = {"sub": "glue", "bottom": bottom, "levels": ls}
+            if exc:
+                c["exc"] = exc
+            return c
         for i in range(len(levels) - 1, -1, -1):
             if len(levels) > 1:
-                yield {"sub": "glue", "bottom": case["bottom"], "levels": levels[:i] + levels[i + 1:]}
+                yield mk(case["bottom"], levels[:i] + levels[i + 1:])
         if case["bottom"]:
-            yield {"sub": "glue", "bottom": 0, "levels": levels}
+            yield mk(0, levels)
+        if case.get("exc"):
+            yield mk(case["bottom"], levels, None)
         for i, L in enumerate(levels):
             for key, simple in (("orphan", 0), ("pre", 0), ("post", 0), ("handler", ["pass"]), ("own", None), ("await", "yld")):
                 if L[key] != simple:
                     ls = [dict(x) for x in levels]
                     ls[i][key] = simple
-                    yield {"sub": "glue", "bottom": case["bottom"], "levels": ls}
+                    yield mk(case["bottom"], ls)
             if L["own"]:
                 ls = [dict(x) for x in levels]
                 ls[i]["own"] = 0
-                yield {"sub": "glue", "bottom": case["bottom"], "levels": ls}
+                yield mk(case["bottom"], ls)
     elif sub == "repr":
         only = case.get("only")
         idxs = only if only is not None else list(range(256))   # scenario indices; beyond the table: no observation
@@ -477,7 +520,8 @@ def shrink(case):
 
 def _may_hit_open_stack_finding(case):
     """syntactic over-approximation of `not stackSafe`: some level calls its child synchronously without catching, and
-    an orphan is created at or below it (open finding glue/stack-foreign-entry-sync)"""
+    an orphan is created at or below it (finding glue/stack-foreign-entry-sync, fixed; only reachable again if the
+    unconditional traceback walk comes back)"""
     levels = case["levels"]
     for i, L in enumerate(levels):
         if L["await"] == "sync" and L["handler"][0] in ("pass", "bare", "named"):
@@ -497,6 +541,8 @@ def neighbours(case, rng):
             i = rng.randrange(len(levels))
             levels[i] = gen_glue_random(rng, 1)["levels"][0]
             c = {"sub": "glue", "bottom": case["bottom"], "levels": levels}
+            if case.get("exc"):
+                c["exc"] = case["exc"]
             if own or not _may_hit_open_stack_finding(c):
                 yield c
         for _ in range(16):
@@ -618,6 +664,20 @@ class GlueErr(Exception):
         self.tok = tok
 
 
+class GlueBaseErr(BaseException):
+    """the same, outside the Exception hierarchy (case field "exc": "base"): the model has no exception class, so the
+    observation must not depend on it.  NOT a GeneratorExit: asynq reads an exception deriving from GeneratorExit that
+    leaves a generator as the END of the task (async_task.py `_continue`: `except GeneratorExit` -> `_queue_exit(None)`,
+    the mechanism behind `result()` / AsyncTaskResult) - see ASSUMPTIONS."""
+
+    def __init__(self, tok):
+        BaseException.__init__(self, "glue base error %d" % tok)
+        self.tok = tok
+
+
+GLUE_ERRS = (GlueErr, GlueBaseErr)
+
+
 def _level_tmpl(ctx, lv):
     L = ctx.levels[lv]
     if L["orphan"]:
@@ -647,7 +707,7 @@ def _level_tmpl(ctx, lv):
                     ctx.fn(lv + 1)(ctx, lv + 1)
                 else:
                     ctx.make_bottom().value()
-            except GlueErr as e:
+            except GLUE_ERRS as e:
                 ctx.stack("handler", lv)
                 h = L["handler"]
                 if h[0] == "bare":
@@ -656,14 +716,14 @@ def _level_tmpl(ctx, lv):
                     raise e
                 elif h[0] == "new":
                     if h[1] == 0:
-                        raise GlueErr(10 * lv + 2)
-                    ctx.hfn(lv, 1)(ctx, lv, 1, h[1], GlueErr(10 * lv + 2))
+                        raise ctx.E(10 * lv + 2)
+                    ctx.hfn(lv, 1)(ctx, lv, 1, h[1], ctx.E(10 * lv + 2))
     for _ in range(L["post"]):
         yield None
     if L["own"] is not None:
         if L["own"] == 0:
-            raise GlueErr(10 * lv + 1)
-        ctx.hfn(lv, 1)(ctx, lv, 1, L["own"], GlueErr(10 * lv + 1))
+            raise ctx.E(10 * lv + 1)
+        ctx.hfn(lv, 1)(ctx, lv, 1, L["own"], ctx.E(10 * lv + 1))
     return lv
 
 
@@ -683,16 +743,16 @@ def _hook_pause_tmpl(self):
     self.npause += 1
     if self.mode == "pause" and self.npause == 1:      # the scheduler suspends the blocked task
         if self.h == 0:
-            raise GlueErr(4)
-        self.ctx.jfn(self.lv, 1)(self.ctx, self.lv, 1, self.h, GlueErr(4))
+            raise self.ctx.E(4)
+        self.ctx.jfn(self.lv, 1)(self.ctx, self.lv, 1, self.h, self.ctx.E(4))
 
 
 def _hook_resume_tmpl(self):
     self.nresume += 1
     if self.mode == "resume" and self.nresume == 2:    # 1st: __enter__; 2nd: the scheduler continues the task
         if self.h == 0:
-            raise GlueErr(4)
-        self.ctx.jfn(self.lv, 1)(self.ctx, self.lv, 1, self.h, GlueErr(4))
+            raise self.ctx.E(4)
+        self.ctx.jfn(self.lv, 1)(self.ctx, self.lv, 1, self.h, self.ctx.E(4))
 
 
 def _orphan_tmpl(ctx, lv):
@@ -703,7 +763,7 @@ def _orphan_tmpl(ctx, lv):
 def _glue_caller(ctx):
     try:
         ctx.fn(0)(ctx, 0)
-    except Exception as e:  # what reaches the caller is the observation
+    except (Exception, GlueBaseErr) as e:  # what reaches the caller is the observation
         return e
     return None
 
@@ -750,6 +810,7 @@ class GlueCtx(object):
         self.stash = []
         self.events = []
         self._fns = {}
+        self.E = GlueBaseErr if case.get("exc") == "base" else GlueErr     # the class of every exception of the chain
 
     def __repr__(self):
         return "ctx"
@@ -793,7 +854,7 @@ class GlueCtx(object):
 
     def make_bottom(self):
         from asynq import futures
-        return futures.ErrorFuture(GlueErr(3))
+        return futures.ErrorFuture(self.E(3))
 
     def stack(self, kind, lv):
         from asynq import debug as adebug
@@ -854,7 +915,7 @@ def run_glue(case):
     if e is None:
         ctx.events.append("(result ok)")
     else:
-        tok = getattr(e, "tok", 999) if isinstance(e, GlueErr) else 999
+        tok = getattr(e, "tok", 999) if isinstance(e, ctx.E) else 999
         # raw: walk the traceback, one token per frame object
         raw = []
         tb = e.__traceback__
@@ -893,12 +954,13 @@ def run_glue(case):
     feats += sorted({"glue:handler=" + L["handler"][0] for L in lv} | {"glue:await=" + L["await"] for L in lv})
     if any(L["own"] for L in lv):
         feats.append("glue:helpers")
+    feats.append("glue:class=%s" % ("BaseException" if ctx.E is GlueBaseErr else "Exception"))
     failed_creator = e is not None or any(L["handler"][0] in ("swallow", "new") for L in lv)
     if any(L["orphan"] for L in lv):
         feats.append("glue:orphan-after-%s" % ("failure" if failed_creator else "success"))
     nontrivial = None
     if crossed >= 2 or (failed_creator and any(L["orphan"] for L in lv)) or (ctx.hook and e is not None):
-        nontrivial = hashlib.sha1(json.dumps([case["bottom"], lv], sort_keys=True).encode()).hexdigest()[:16]
+        nontrivial = hashlib.sha1(json.dumps([case["bottom"], lv, case.get("exc")], sort_keys=True).encode()).hexdigest()[:16]
     return {"lines": lines, "features": feats, "nontrivial": nontrivial}
 
 
@@ -1858,6 +1920,11 @@ def sc_format_error(t):
         glued = e
     no_tb = _Err("attr is None")
     no_tb._traceback = None
+    # `_traceback` holding something that is neither None nor a traceback (outside the statement: compared, not judged)
+    garbage_tb = _Err("attr is garbage")
+    garbage_tb._traceback = "garbage"
+    falsy_tb = _Err("attr is 0")
+    falsy_tb._traceback = 0
 
     class BadStr(Exception):
         def __str__(self):
@@ -1884,6 +1951,10 @@ def sc_format_error(t):
         ("notAnExceptionTbParam", "just a string", plain_raised.__traceback__, "(fe 0 0 none 1)"),
         ("objectTracebackAttr", _with_tb_attr(plain_raised.__traceback__), None, "(fe 0 0 1 0)"),
         ("objectTracebackAttrNone", _with_tb_attr(None), None, "(fe 0 0 0 0)"),
+        ("excTracebackAttrGarbage", garbage_tb, None, "(fe 0 1 2 0)"),
+        ("excTracebackAttrFalsyGarbage", falsy_tb, None, "(fe 0 1 2 0)"),
+        ("excTracebackAttrGarbageTbParam", garbage_tb, plain_raised.__traceback__, "(fe 0 1 2 1)"),
+        ("objectTracebackAttrGarbage", _with_tb_attr("garbage"), None, "(fe 0 0 2 0)"),
     ]
     for name, err, tb, state in cases:
         for hl in (1, 0):
